@@ -34,5 +34,5 @@ def run(ctx, res):
     # of the identifiers for recognised signals (Y-ord, that clause only; Y-part for callers going through partial_cmp)
     import sigtab, engine
     view = engine.Filtered(res, {"Y-tab", "Y-ord", "Y-part"}, key_contains={"Y-ord": ("both recognised",)})
-    sigtab.rule_tables(prog, view, os.path.join(engine.VERIF, "oracles", "msm_signals.json"))
-    sigtab.rule_order(prog, view)
+    tabs = sigtab.rule_tables(prog, view, os.path.join(engine.VERIF, "oracles", "msm_signals.json"))
+    sigtab.rule_order(prog, view, tabs)
